@@ -9,7 +9,7 @@ import Momo.Model.Obj
   OBJECTS: every operation emits the events of `Momo/Model/Ledger.lean` (`alloc` / `dealloc` with manager class and size,
   `construct` / `destroy` / `relocate` / `use` of an element object) in program order, and keeps the books of what the
   container owns.  The table itself is computed by the functions of the hash-table model (`addNogrowGen`, `emptyGen`,
-  `relocate`, `removePos`, `clear`, `newLog`, `capacityOf`, `findTable`, `traverse`): nothing of the probing / placement
+  `relocate`, `removePos`, `clear`, `newLog`, `growLog`, `capacityOf`, `findTable`, `traverse`): nothing of the probing / placement
   logic is repeated here.
 
   What a container owns (`St`):
@@ -26,14 +26,17 @@ import Momo.Model.Obj
     * `bufs`     pool buffers of the chained bucket kinds (LimP4 / LimP / LimP1 / UnlimP keep their items in blocks of memory
                  pools owned by `BucketParams`): id and size of every buffer the pools hold at the memory manager.  WHICH buffers
                  a pool holds is decided by `MemPool` (C09), not by the hash table: the model takes the pool traffic of an operation
-                 as part of its fault schedule (`Flt.pool`: buffers obtained, buffers given back) and only uses the pool contract
-                 `DeallocateAll` / `~MemPool` return every buffer (`BucketParams::Clear`, `Buckets::Destroy(…, true)`).
+                 as part of its schedule (`OpT.pa` / `OpT.pb`: buffers obtained and kept, buffers given back; booked after the
+                 operation's own events) and only uses the pool contract `DeallocateAll` / `~MemPool` return every buffer
+                 (`BucketParams::Clear`, `Buckets::Destroy(…, true)`: `Clear`, destructor, failed copy construction).
+                 NOT booked for the chained kinds: the relocation of a bucket's items into a larger pool block
+                 (`RelocateCreate` in `AddCrt`, e.g. HashBucketLimP4.h:483-496) - their element objects are tracked per item.
 
   Faults (`Flt`, one record per operation = the operation's fault schedule; DESIGN.md 2.7: named by kind and target):
     hash / equality functor throwing in the lookup, refused bucket array, refused `BucketParams`, refused crew block, throwing
     item creator / copy constructor, throwing assignment inside `Replace`, the migration `pvRelocateItems` interrupted after any
     number of items (throwing hash functor, throwing copy, refused pool buffer), a copy construction failing after any number of
-    items, refused pool buffer in `AddCrt`.
+    items, refused pool buffer in `AddCrt` (`create`).
 
   Source mirrored (HashSet.h): Buckets::Create / Destroy 51-96, copy constructor 574-596, ~HashSet 598, operator= 603-614, Swap
   616-622, Clear 666-684, Reserve 691-714, Insert(ExtractedItem&&) 765-775, Remove(iter) / Remove(iter, extItem) / Remove(key)
@@ -262,12 +265,18 @@ def relocL (cfg : Cfg) (hf : Nat → Nat) (st : St) (stop : Option Nat) (w : W) 
 
 /-! ### `pvAdd` -/
 
+/-- the size `pvAddGrow` asks for (`HT.growLog`; the value is only used where the check of the sizing loop has passed) -/
+def growLogD (sp : Spec) (t : Table) : Nat := (growLog sp t).getD (newLog sp t)
+
 /-- `pvAdd` up to the point where the creator runs. `inl` = the operation has failed (roll-back done); `inr` = the place for the new
     item exists: the container with its new table (the new item not yet on the books) and the world in which the creator runs.
     `crThrows` = the creator is going to throw: then the place is given up again (`newBuckets->Destroy(…, !hasBuckets)`,
     HashSet.h:1158-1162). -/
 def addPrepL (cfg : Cfg) (hf : Nat → Nat) (st : St) (it : Item) (crThrows : Bool) (f : Flt) (w : W) :
     (St × W × Outcome) ⊕ (St × W) :=
+  -- `pvAddGrow` starts with its sizing loop (HashSet.h:1132-1142, `HT.growLog`); the `MOMO_CHECK` inside it fails before
+  -- anything is allocated
+  if !decide (st.t.count < st.t.cap) && (growLog cfg.sp st.t).isNone then .inl (st, w, .invalid) else
   if st.t.count < st.t.cap || (f.grow && cfg.sp.overloadIfCannotGrow && !st.t.gens.isEmpty) then
     -- `pvAddNogrow<true>(*mBuckets, …)`: directly, or as the fallback of `pvAddGrow` when the bucket array is refused
     match st.t.gens with
@@ -281,10 +290,10 @@ def addPrepL (cfg : Cfg) (hf : Nat → Nat) (st : St) (it : Item) (crThrows : Bo
   else
     -- `Buckets::Create`: the array, then (first table only) the params
     if st.t.gens.isEmpty && f.params then
-      .inl (st, (w.allocB cfg.mgr (cfg.arrSize (newLog cfg.sp st.t))).2.freeB cfg.mgr
-        (w.allocB cfg.mgr (cfg.arrSize (newLog cfg.sp st.t))).1 (cfg.arrSize (newLog cfg.sp st.t)), .badAlloc)
+      .inl (st, (w.allocB cfg.mgr (cfg.arrSize (growLogD cfg.sp st.t))).2.freeB cfg.mgr
+        (w.allocB cfg.mgr (cfg.arrSize (growLogD cfg.sp st.t))).1 (cfg.arrSize (growLogD cfg.sp st.t)), .badAlloc)
     else
-      let nl := newLog cfg.sp st.t
+      let nl := growLogD cfg.sp st.t
       let w1 := (w.allocB cfg.mgr (cfg.arrSize nl)).2
       let a := (w.allocB cfg.mgr (cfg.arrSize nl)).1
       let first := st.t.gens.isEmpty
